@@ -100,10 +100,10 @@ entry("G1 Relu(Clip(x, -3, -1)) -> Clip(x, 0, -1)", 18,
 entry("G2 Clip(Clip(x, 0, 1), 2, 3) -> Clip(x, 2, 1)", 18,
       """g (float[3] x) => (float[3] y) <float a = {0}, float b = {1}, float c = {2}, float d = {3}, float[3] t>
          { t = Clip(x, a, b) y = Clip(t, c, d) }""", C.successive_clip_rule, {"x": X})
-entry("H1 twin: two Flatten nodes on the same input -> initializer name clash", 18,
+entry("H1 twin (fixed in /repo by bffcbe6): two Flatten nodes on the same input -> initializer name clash", 18,
       "g (float[2,3,4] x) => (float[6,4] y, float[1,24] z) { y = Flatten <axis = 2> (x) z = Flatten <axis = 0> (x) }",
       C.flatten_to_reshape_rule, {"x": np.zeros((2, 3, 4), f32)})
-entry("H2 twin: two Min(Min) chains on the same input -> initializer name clash", 18,
+entry("H2 twin (fixed in /repo by bffcbe6): two Min(Min) chains on the same input -> initializer name clash", 18,
       """g (float[3] x) => (float[3] y, float[3] z) <float a = {1}, float b = {2}, float c = {5}, float d = {6}>
          { t = Min(x, a) y = Min(t, b) u = Min(x, c) z = Min(u, d) }""", C.min_min_rule, {"x": X})
 entry("I1 Flatten of a static size-0 input -> Reshape([1, 0]) (0 means copy)", 18,
